@@ -62,6 +62,8 @@ def run(tier, seed):
     res.obl = core.check_obligations(PROP, MODULE, THEOREMS)
     if gen.get('RelImport.v'):
         res.obl['failures'].append('translator refused the source: ' + gen['RelImport.v'])
+    if tier == 'thorough' and not res.obl['failures']:
+        core.thorough_coqchk(res, MODULE)
     impl = core.build_impl()
     tmp = core.SCRATCH_ROOT / 'tmp'
     tmp.mkdir(parents=True, exist_ok=True)
